@@ -139,6 +139,7 @@ def check_case(res, case):
         var2 = [sum(1 << p for p in range(1 << nv) if (p >> k) & 1) for k in range(nv)]
         v2 = nl.eval2(var2[:nI], var2[nI:], mask2)
         nontrivial = False
+        case_sig = []
         for name, pos, sig in obs:
             got = lsim.read_codes(sim, 1, pos, n, sim.mdim)
             exp = v[sig]
@@ -148,7 +149,7 @@ def check_case(res, case):
                 res.violation(_key(case, name), case,
                               f'{name} ({sig}) lane {i} inputs {fmt([a[i] for a in vals])}: got {ref.CHARS[int(got[i]) & 7]} expected {ref.CHARS[int(exp[i])]} {nl}')
             if len(np.unique(got)) > 1: nontrivial = True
-            res.sig((case['nl'], m, name, got.tobytes()))
+            case_sig.append(got.tobytes())
             # (b) X-soundness, directly: every completion of every lane of the 4-valued sub-alphabet
             t2 = v2[sig]
             for i in sub_idx:
@@ -182,7 +183,9 @@ def check_case(res, case):
                     if not np.array_equal((gk >> 1) & 1, tt[ini]) or not np.array_equal(gk & 1, tt[fin]):
                         res.violation(_key(case, name + '-components'), case, f'{name}: initial/final components differ from the 2-valued reference {nl}')
                     res.count('component_lanes', len(idxs))
-        if nontrivial: res.count('nontrivial')
+        if nontrivial:
+            res.count('nontrivial')
+            res.sig((case['nl'], m, case['style'], tuple(case_sig)))
         if len(res.samples) < 2: res.samples.append(case)
     except Exception as ex:
         res.violation(_key(case, 'exception-' + type(ex).__name__), case, traceback.format_exc()[-1500:])
